@@ -83,7 +83,7 @@ def setup_classifier(prog, rf):
     return cl, lg, guards
 
 
-def run(rep, tier="quick", replay=None, evidence_dir=None):
+def run(rep, tier="quick", replay=None, evidence_dir=None, collect_only=False):
     prog = Program(factsmod.extract())
     rep.rule("C05.R1", "every allocation size in the reading set is CONST | LEN | LIMIT | value of a limit guard (params checked at callers)")
     rep.rule("C05.R2", "declared counts stored in counter fields / loop bounds pass a limit guard")
@@ -265,6 +265,8 @@ def run(rep, tier="quick", replay=None, evidence_dir=None):
     import c05_more
     c05_more.run(prog, rep, rset, rkeys, rf, cl, lg, guards)
 
+    if collect_only:
+        return rep
     rep.not_decided = ["absence of all panics (serde_json, uuid, num-bigint, regex-lite and the codec crates are trusted)",
                        "stack depth on deeply nested data (acknowledged non-goal)", "actual peak memory and wall-clock bounds"]
     return common.finish(rep, level="other",
